@@ -49,6 +49,9 @@ def cases(tier, seed):
             yield {"kind": "kiss", "mean": mean, "depth": depth, "dims": dims, "late_eval": depth > 1, "seed": rnd.randrange(10**6)}
         for mb, lik, depth, fpv in itertools.product([[], [2]], ["gauss", "fixed", "fixed+learn"], [2, 3], [False, True]):
             yield {"kind": "single", "mbatch": mb, "pattern": "m", "lik": lik, "depth": depth, "fast_pred_var": fpv, "detach": True, "n": 4, "m": 2, "late_eval": True, "seed": rnd.randrange(10**6)}
+        # as many fantasy points as stored (fixed) noise values - in round one, and in round two (m2 == n + m1)
+        for lik_, fpv, depth in itertools.product(["fixed", "fixed+learn"], [False, True], [1, 2]):
+            yield {"kind": "single", "mbatch": [], "pattern": "m", "lik": lik_, "depth": depth, "fast_pred_var": fpv, "detach": True, "n": 3, "m": 3, "m_equals_stored": True, "seed": rnd.randrange(10**6)}
         # sources beyond the Cholesky size limit: iterative solves, low-rank (8 of 25) Lanczos roots in the caches
         for mb, lik, depth, fpv in itertools.product([[], [2]], ["gauss", "fixed"], [1, 2], [False]):
             yield {"kind": "single", "mbatch": mb, "pattern": "m", "lik": lik, "depth": depth, "fast_pred_var": fpv, "detach": True, "n": 25, "m": 2, "iterative": True, "seed": rnd.randrange(10**6)}
@@ -97,6 +100,8 @@ def _snapshot(model, probe):
         "strat_id": id(model.prediction_strategy),
         "caches": _digest_strategy(model.prediction_strategy),
         "pred": pred,
+        "requires_grad": {n_: p_.requires_grad for n_, p_ in model.named_parameters()},
+        "training": {n_: m_.training for n_, m_ in model.named_modules()},
     }
 
 
@@ -115,6 +120,12 @@ def _ensure_unchanged(ctx, model, snap, probe, tag):
         bad.append("train_targets")
     if id(model.prediction_strategy) != snap["strat_id"]:
         bad.append("prediction_strategy replaced")
+    for n_, p_ in model.named_parameters():
+        if snap.get("requires_grad", {}).get(n_, p_.requires_grad) != p_.requires_grad:
+            bad.append("requires_grad:" + n_)
+    for n_, m_ in model.named_modules():
+        if snap.get("training", {}).get(n_, m_.training) != m_.training:
+            bad.append("training_flag:" + n_)
     now = _digest_strategy(model.prediction_strategy)
     for k, v in snap["caches"].items():
         if k not in now or now[k].shape != v.shape or not torch.equal(now[k], v):
@@ -297,6 +308,8 @@ def _single(case, ctx, g):
             pat_case = dict(case)
             if level > 0 and case["pattern"] in ("fm_shared", "fm_own", "fbm"):
                 pat_case["pattern"] = "m"  # deeper levels add plain fantasies on the (already fantasy-batched) model
+            if case.get("m_equals_stored"):
+                pat_case["m"] = int(cur.train_targets.shape[-1])  # as many fantasy points as the likelihood stores noise values
             Xf, yf = _fantasy_data(pat_case, g, cur_batch)
             kw = {}
             if case["lik"] != "gauss":
